@@ -1,6 +1,7 @@
 import Proofs.PCQueueOrder
 import Proofs.ChainPool
-import Proofs.ChainRing
+import Proofs.ChainLive
+import Proofs.PCQueueRefine
 /-!
 # C17 — Queues and chains deliver each item exactly once, in order, and terminate
 
@@ -235,42 +236,135 @@ end pool
 
 /-! ## Part 3: `util::stream::Chain` (util/stream/chain.hh, chain.cc)
 
-Model `KV.Chain.Chain` (lean/Model/Chain.lean): `b ≥ 1` blocks, `m ≥ 1` workers (source + pass-through
-stages) + the `Recycler`, the user thread running `Chain::Start` and `Chain::Wait`; queues are atomic bounded
-FIFOs (Part 1); arbitrary scheduler.
-
-Full statement intended by DESIGN §5 (`chain_ring`), kept here for reference:
-  for every reachable state, for every pass-through stage `j`:
-    `pushed (j) ++ pending j = (popped (j-1)).map (F j)`  (each stage outputs the image of exactly what it
-    received, in order: content preserved), `popped (j-1)` is a prefix of `pushed (j-1)` (it sees its
-    predecessor's blocks in order), each `pushed j` contains at most one poison, as its last element, and
-    ends with it once stage `j` has finished; some thread can step unless everything has finished, and a
-    measure decreases, so `Chain::Wait` returns.
-Proved below (`chain_ring_partial`): the per-queue part.  **Missing**: the stage input/output relation,
-poison-exactly-once, deadlock freedom and termination of the ring; these are only *checked* — on the model
-by exhaustive enumeration of all schedules for small (b, m, n) in the driver, and on the real code by the
-schedule-driven correspondence and the oracle of checks/C17.py — which is bounded exploration, not proof. -/
+Model `KV.Chain.Chain` (lean/Model/Chain.lean): `b ≥ 1` blocks, stages `0..m` (`m ≥ 1`; stage 0 the source
+that fills `data.length` blocks and then calls `Link::Poison()`, stages `1..m-1` pass-through workers, stage `m`
+the `Recycler`), the user thread running `Chain::Start` and `Chain::Wait` (join all threads, then drain queue 0
+up to the poison); a ring of `m+1` single-producer/single-consumer bounded FIFOs (Part 1 / Part 4).  Every
+worker is `for (Link l(position); l; ++l) body`, with `Link::Init`, `operator++`, `Poison` and `~Link`
+modelled operation by operation including the `poisoned_` flag (the theorem depends on it: with
+`poisoned_ = !current_` in `Init`, the change seeded as C17-2, `afterConsume` would end in `finished` instead of
+`dtor` and `StageOK.r` / `fin` fail).  One step = one whole `Produce` / `Consume` / thread start / `join`;
+the scheduler is arbitrary; `b`, `m`, the data and the schedule are unbounded. -/
 section chain
 open KV.Chain
 
-/-- **Chain (partial)**: in every reachable state of every chain (any block count, any number of workers, any
-data, any schedule), for every queue: everything ever pushed = everything ever popped ++ the current content
-— so the consumer of a queue receives exactly what its producer pushed, in order, nothing lost or duplicated —
-and no queue ever holds more than `b` items. -/
-theorem chain_ring_partial (b m : Nat) (data : List Nat) {c : Chain}
+/-- **Chain ring.**  In every reachable state of every chain:
+1. *order*: stage `i+1` has received exactly a prefix of what stage `i` produced, in production order, the rest
+   is in the queue between them; queue 0 holds the blocks of `Chain::Start` followed by the recycler's output,
+   read first by the source and then by `Chain::Wait`;
+2. *content preserved*: what a stage has produced (plus the block in its hand) is the image of what it has
+   received under its deterministic stage function, item by item (`outFrom`; for stages `≥ 1` simply `map`);
+3. *poison exactly once per stage*: a stage's output contains poison at most once, as its last element, and
+   contains it iff the stage has finished;
+4. *capacity*: no queue ever holds more than `b` items;
+5. *ring deadlock freedom*: unless the user thread and all stages have finished, some thread can step;
+6. *termination*: every step strictly decreases `chainMeasure`, so `Chain::Wait` returns;
+7. *the end*: "Chain ending without poison" is never reached, and when `Chain::Wait` has returned every stage
+   has finished, the poison has reached the end (the user thread consumed it), the source has produced exactly
+   the data followed by one poison, and every stage has received everything its predecessor produced. -/
+theorem chain_ring {b m : Nat} {data : List Nat} {c : Chain} (hb : 0 < b) (hm : 1 ≤ m)
     (hr : Chain.Reach (Chain.init b m data) c) :
-    (∀ j, c.pushed.getD j [] = c.popped.getD j [] ++ c.qs.getD j [])
-    ∧ (∀ j, (c.qs.getD j []).length ≤ c.b) := by
-  have h := cinv_reach (cinv_init b m data) hr
-  exact ⟨h.fifo, h.capb⟩
+    ((∀ i, i < m → (c.st i).out = (c.st (i + 1)).inp ++ c.q (i + 1))
+      ∧ List.replicate (b - fillRem c) (Item.val 0) ++ (c.st m).out = (c.st 0).inp ++ c.drained ++ c.q 0)
+    ∧ (∀ i, i ≤ m → (c.st i).out ++ pend (c.st i) = outFrom m data i 0 (c.st i).inp
+        ∧ (1 ≤ i → (c.st i).out ++ pend (c.st i) = (c.st i).inp.map (passOf m i)))
+    ∧ (∀ i, i ≤ m → Item.poison ∉ (c.st i).out.dropLast ∧ ((c.st i).pc = .finished ↔ Item.poison ∈ (c.st i).out))
+    ∧ (∀ j, j ≤ m → (c.q j).length ≤ b)
+    ∧ ((c.main ≠ .finished ∨ ∃ i, i ≤ m ∧ (c.st i).pc ≠ .finished) → ∃ tid, c.step tid ≠ none)
+    ∧ (∀ tid c', c.step tid = some c' → chainMeasure b m data c' < chainMeasure b m data c)
+    ∧ (c.main ≠ .aborted
+        ∧ (c.main = .finished →
+            (∀ i, i ≤ m → (c.st i).pc = .finished) ∧ Item.poison ∈ c.drained
+            ∧ (c.st 0).out = data.map Item.val ++ [Item.poison]
+            ∧ ∀ i, i < m → c.q (i + 1) = [] ∧ (c.st (i + 1)).inp = (c.st i).out)) := by
+  have h := rinv_reach hb hm hr
+  refine ⟨⟨h.q, h.q0⟩, ?_, ?_, ?_, chain_no_deadlock_inv h, fun tid c' hs => chain_measure_step h hs, ?_, ?_⟩
+  · intro i hi
+    refine ⟨(h.sok i hi).r, fun h1 => ?_⟩
+    rw [(h.sok i hi).r, outFrom_eq_map (by omega)]
+  · intro i hi
+    exact ⟨(h.sok i hi).last, (h.sok i hi).fin⟩
+  · intro j hj
+    have hc := h.conservation
+    have := le_sumTo (fun j => (c.q j).length) (i := j) (k := m + 1) (by omega)
+    omega
+  · intro e
+    have := h.mainok
+    unfold MainOK at this
+    rw [e] at this
+    exact this
+  · intro e
+    have hmain := h.mainok
+    unfold MainOK at hmain
+    rw [e] at hmain
+    refine ⟨hmain.1, hmain.2, h.source_out (hmain.1 0 (by omega)), fun i hi => ?_⟩
+    exact h.handed_over hi (hmain.1 (i + 1) (by omega))
 
 /-- non-vacuity / the complete behaviour on a concrete chain: 2 blocks, source + 1 pass stage + recycler,
 3 data blocks; this complete schedule ends with everything finished and stage 2 having seen the data in order -/
 example : ((([0, 0, 1, 1, 1, 1, 1, 2, 2, 2, 2, 2, 3, 3, 3, 1, 1, 2, 2, 3, 3, 1, 1, 0, 2, 2, 0, 3, 3, 3, 3, 0, 0, 0]).foldl
       (fun (o : Option Chain) t => o.bind (·.step t)) (some (Chain.init 2 2 [11, 12, 13]))).map
-      (fun c => (c.allDone, c.seen.getD 1 [], c.pushed.getD 0 [] == c.popped.getD 0 []))) =
-    some (true, [11, 12, 13], true) := by decide
+      (fun c => (c.allDone, c.seen 1, (c.st 0).out, c.drained))) =
+    some (true, [11, 12, 13], [.val 11, .val 12, .val 13, .poison], [.val 132, .poison]) := by decide
 
 end chain
+
+/-! ## Part 4: refinement — the semaphore queue *is* an atomic bounded FIFO
+
+The ThreadPool and Chain models above, and the three queues of the filter controller model
+(`lean/Model/FilterCtl.lean`, property C12: `if q.length < cfg.queue then q ++ [x]`, head pop), treat a
+`PCQueue` as an atomic bounded FIFO with the transition functions `KV.Chain.fifoPush` / `KV.Chain.fifoPop`.
+`pcqueue_refines_fifo` justifies this by a theorem about the step-level model of Part 1:
+with the abstraction `absBuf s` = values written and not yet read (oldest first) and the critical-section
+bodies as linearisation points,
+* every synchronisation step of every thread, in every reachable state, is either a stutter step of the
+  atomic FIFO, or `fifoPush cap` of the produced value (enabled: the buffer is not full), or `fifoPop`
+  returning exactly the value the consumer receives;
+* hence along every schedule the sequence of linearised operations is a run of the atomic FIFO of capacity `cap`
+  starting empty and ending in `absBuf s`; each operation lies between the call (`wait`) and the return (`post`)
+  of the `Produce` / `Consume` that performs it, so per-thread program order is preserved.
+The liveness half (an operation enabled in the atomic FIFO is eventually completed by the implementation) is
+`no_deadlock` + `terminates` of Part 1.  To cite from another model: `KV.C17.pcqueue_refines_fifo`. -/
+section refinement
+open KV.Chain (fifoPush fifoPop)
+
+theorem pcqueue_refines_fifo (hcap : 0 < cap) :
+    (∀ {s s' : State} {tid : Nat}, Reach (mkInit cap ps qs) s → step s tid = some s' →
+        match stepEvent s tid with
+        | none => absBuf s' = absBuf s
+        | some (.push _ v) => fifoPush cap (absBuf s) v = some (absBuf s')
+        | some (.pop _ v) => fifoPop (absBuf s) = some (v, absBuf s'))
+    ∧ (∀ (sched : List Nat) (s : State), runSched (mkInit cap ps qs) sched = some s →
+        fifoRun cap [] (events (mkInit cap ps qs) sched) = some (absBuf s)) := by
+  constructor
+  · intro s s' tid hr hs
+    obtain ⟨h, hc⟩ := reach_inv hcap hr
+    have := step_refines h hs
+    rw [hc] at this
+    exact this
+  · intro sched s hrun
+    exact run_refines (inv_init cap ps qs hcap) sched hrun
+
+/-- the ThreadPool model's queue operations are literally these FIFO operations -/
+theorem pool_uses_fifo (p : KV.Chain.Pool) :
+    (∀ x rest, p.todo = x :: rest → (p.step 0).map (·.q) = fifoPush p.cap p.q x)
+    ∧ (∀ i, p.wpc[i]? = some .running → (p.step (i + 1)).map (·.q) = (fifoPop p.q).map (·.2)) := by
+  constructor
+  · intro x rest ht
+    unfold KV.Chain.Pool.step fifoPush
+    simp only [ht]
+    by_cases e : p.q.length < p.cap <;> simp [e]
+  · intro i hi
+    unfold KV.Chain.Pool.step fifoPop
+    simp only [hi]
+    cases hq : p.q with
+    | nil => simp
+    | cons x r => cases x <;> simp
+
+/-- non-vacuity: the linearised history of a concrete complete run -/
+example : events demoInit [0,0,0,0,0, 1,1,1,1,1, 2,2,2,2,2, 0,0,0,0,0, 3,3,3,3,3, 2,2,2,2,2]
+    = [.push 0 7, .push 1 9, .pop 2 7, .push 0 8, .pop 3 9, .pop 2 8] := by decide
+
+end refinement
 
 end KV.C17
